@@ -503,6 +503,74 @@ impl BlackHoleDetector {
     }
 }
 
+#[cfg(feature = "quinn_rs_quinn_verif")]
+impl MtuDiscovery {
+    /// Verification hook: canonical one-line rendering of the complete private state.
+    /// Instants are printed as nanosecond offsets from `base`.
+    pub(super) fn verif_state(&self, base: Instant) -> String {
+        use std::fmt::Write as _;
+        let mut s = format!("mtu={}", self.current_mtu);
+        match &self.state {
+            None => s.push_str(" ph=- pm=- cfg=-"),
+            Some(st) => {
+                match &st.phase {
+                    Phase::Initial => s.push_str(" ph=I"),
+                    Phase::Searching(x) => {
+                        let inflight = x
+                            .in_flight_probe
+                            .map_or_else(|| "-".to_string(), |p| p.to_string());
+                        write!(
+                            s,
+                            " ph=S:{},{},{},{},{},{}",
+                            x.lower_bound,
+                            x.upper_bound,
+                            x.minimum_change,
+                            x.last_probed_mtu,
+                            inflight,
+                            x.lost_probe_count
+                        )
+                        .unwrap();
+                    }
+                    Phase::Complete(t) => {
+                        write!(s, " ph=C:{}", t.duration_since(base).as_nanos()).unwrap()
+                    }
+                }
+                write!(
+                    s,
+                    " pm={} cfg={},{},{},{}",
+                    st.peer_max_udp_payload_size,
+                    st.config.interval.as_nanos(),
+                    st.config.upper_bound,
+                    st.config.minimum_change,
+                    st.config.black_hole_cooldown.as_nanos()
+                )
+                .unwrap();
+            }
+        }
+        let d = &self.black_hole_detector;
+        let bursts = if d.suspicious_loss_bursts.is_empty() {
+            "-".to_string()
+        } else {
+            d.suspicious_loss_bursts
+                .iter()
+                .map(|b| b.smallest_packet_size.to_string())
+                .collect::<Vec<_>>()
+                .join(",")
+        };
+        let cur = d.current_loss_burst.as_ref().map_or_else(
+            || "-".to_string(),
+            |c| format!("{}:{}", c.latest_non_probe, c.smallest_packet_size),
+        );
+        write!(
+            s,
+            " bh={};{};{};{};{}",
+            bursts, cur, d.largest_post_loss_packet, d.acked_mtu, d.min_mtu
+        )
+        .unwrap();
+        s
+    }
+}
+
 #[derive(Copy, Clone)]
 struct LossBurst {
     smallest_packet_size: u16,
